@@ -39,6 +39,7 @@ def r1_r2_set_remove(rep, src):
     px = Proxy(rep, 'C05.R1')
     C10.r5_dup_set_remove(px, src)
     C10.r_nodup(Proxy(rep, 'C05.R2'), src)
+    C10.r_nodup_histories(Proxy(rep, 'C05.R2'), src)
 
 
 def r1b_helper(rep, src):
